@@ -316,8 +316,14 @@ class Model(object):
         m = self.mod(rel)
         if '.' in qual:
             c, f = qual.split('.', 1)
-            if c not in m.classes or f not in m.classes[c].methods:
+            if c not in m.classes:
                 raise AnalysisError('anchor %s::%s vanished' % (m.rel, qual))
+            if f not in m.classes[c].methods:
+                # inherited (the method may have been moved to a base class or a mixin of this class)
+                r = m.classes[c].find_method(f)
+                if r is None or not r[0].mod.rel.startswith('asn1tools/'):
+                    raise AnalysisError('anchor %s::%s vanished' % (m.rel, qual))
+                return r[1]
             return m.classes[c].methods[f]
         if qual not in m.functions:
             raise AnalysisError('anchor %s::%s vanished' % (m.rel, qual))
